@@ -430,3 +430,4 @@ PROP = Prop("C19", [
     "the canary table of a fresh subprocess (same tree, PYTHONHASHSEED=0) is the reference for 'as in a fresh interpreter'",
     "faults are injected through user code only (user primitives, plain raise, warnings filter); the internal depth counter is not asserted on",
 ], selftest=selftest)
+PROP.reach_functions = ['autograd.tracer:trace', 'autograd.core:backward_pass']
